@@ -50,6 +50,13 @@ CLAIMED = {
         "Level 'other' because R2-R4 are necessary structural conditions, not an equivalence proof with an independent validator on whole messages; the reference table is transcribed by hand from the RFCs.",
         "DESIGN.md#c15",
     ),
+    "C20": (
+        "other",
+        "two-level (logging / protocol) non-interference analysis: control-dependence of every logger use on a not-None test (CFG dominance), effect and purity analysis of the logging regions and of the logger classes over the resolved call graph, syntactic information-flow check for logging values outside regions, exception-escape analysis of regions and logger methods, type inference of logged values, structural per-packet record checks",
+        "Transparency is a relation between two runs; it is decided here through its standard static sufficient conditions on all paths: (R1) loggers are only used where proven non-None, (R2) the 76 logging regions and 36 logger methods write only logging state, call only pure callees and never alter control flow, (R3) logging values never reach protocol assignments, arguments or returns, (R4) no modelled exception escapes logging code, (R5) logged values are JSON types, (R6) packet records are emitted per packet on every path.",
+        "Logging locations are identified by attribute / parameter name (_quic_logger, quic_logger, quic_logger_frames, secrets_log_file) and by the classes of quic/logger.py; purity of unresolved third-party calls comes from a small allow-list; R5 flags only values whose type is inferred (18 of 306 remain untyped and are counted, not failed).",
+        "DESIGN.md#c20",
+    ),
 }
 
 NOT_APPLICABLE = {
